@@ -28,8 +28,10 @@ CLAIM = dict(
     note="Bounds and monotonicity along the curve, and conservation where it relies on the right-hand side summing to zero, are checked "
          "numerically on the implementation's output (the flow lift is cited, DESIGN section 3.7); the solver (scipy odeint/ode) is assumed to "
          "return the initial value as first row. Modelled in Coq: the 17 ODE *_from_graph wrappers (row 0 correspondence on every run); row0/accepts theorems "
-         "for the homogeneous and heterogeneous mean field, homogeneous pairwise (partial), compact pairwise and super compact wrappers; the other entry points "
-         "(solver-level functions, effective degree, EBCM, pref-mix, individual/pair based, Attack_rate_*_from_graph) are covered by the oracle only.")
+         "for the homogeneous and heterogeneous mean field, homogeneous pairwise (partial), compact pairwise, super compact, SIR effective degree (explicit sets) "
+         "and EBCM_from_graph (partial) wrappers, following the code after the fix: commits; one refutation is left (SIS_heterogeneous_pairwise_from_graph with full data, "
+         "ValueError) and is replayed on the code on every run; the other entry points (solver-level functions, SIS effective degree, compact effective degree, "
+         "heterogeneous pairwise, pref-mix, individual/pair based, Attack_rate_*_from_graph) are covered by the oracle (and, for the 17 wrappers, the row-0 correspondence) only.")
 
 TOL0 = 1e-9
 
@@ -57,7 +59,7 @@ def qualifiers(case, o):
     if o.II == 0: q.append('II0=1')
     if o.tau == 0: q.append('tau0=1')
     if o.gamma == 0: q.append('gamma0=1')
-    if o.p == 1 and OC.ENTRIES[case['entry']].discrete: q.append('p1=1')
+    if o.p == 1 and (OC.ENTRIES[case['entry']].discrete or 'discrete' in case['entry']): q.append('p1=1')
     return q
 
 
@@ -259,13 +261,7 @@ def _wcase(entry, full, ic, tau='1', gamma='1'):
 
 # witnesses of the `_refuted` theorems of Props/C06.v (graph path3 = a - b - c), replayed on the code on every run
 WITNESSES = [
-    ('accepts_SIR_homogeneous_meanfield_from_graph_refuted', _wcase('SIR_homogeneous_meanfield_from_graph', False, {'mode': 'rho', 'rho': '1/4'}), 'accept:TypeError'),
-    ('row0_SIR_heterogeneous_meanfield_from_graph_full_refuted', _wcase('SIR_heterogeneous_meanfield_from_graph', True, {'mode': 'sets', 'I': [0], 'R': None}), 'layout'),
-    ('row0_SIR_compact_pairwise_from_graph_full_refuted', _wcase('SIR_compact_pairwise_from_graph', True, {'mode': 'sets', 'I': [0], 'R': None}), 'row0:SS'),
-    ('row0_SIS_super_compact_pairwise_from_graph_II_refuted', _wcase('SIS_super_compact_pairwise_from_graph', True, {'mode': 'rho', 'rho': '1/4'}), 'row0:II'),
-    ('row0_SIR_effective_degree_from_graph_refuted', _wcase('SIR_effective_degree_from_graph', False, {'mode': 'sets', 'I': [0], 'R': [2]}), 'row0:S'),
-    ('accepts_SIS_heterogeneous_pairwise_from_graph_full_refuted', _wcase('SIS_heterogeneous_pairwise_from_graph', True, {'mode': 'sets', 'I': [0], 'R': None}), 'accept:NameError'),
-    ('row0_SIR_heterogeneous_pairwise_from_graph_full_refuted', _wcase('SIR_heterogeneous_pairwise_from_graph', True, {'mode': 'sets', 'I': [0], 'R': None}), 'row0:SkSl'),
+    ('accepts_SIS_heterogeneous_pairwise_from_graph_full_refuted', _wcase('SIS_heterogeneous_pairwise_from_graph', True, {'mode': 'sets', 'I': [0], 'R': None}), 'accept:ValueError'),
 ]
 
 
